@@ -936,43 +936,208 @@ theorem NInv.lookup {Lp : Laws Ip e} {Ln : Laws In e} {ign : Bool} {s : NLFW Ip 
   · simp only [hr, if_false]
     exact Ln.getNoexcept_ok _ _ hi.rn r2 (distinct_negPart hok) (nonEmpty_negPart hok) _
 
+theorem NInv.setIgnoreErrors {Lp : Laws Ip e} {Ln : Laws In e} {ign : Bool} {s : NLFW Ip In}
+    {ns : List (Int × V)} (hi : NInv Lp Ln ign s ns) : NInv Lp Ln true s.setIgnoreErrors ns :=
+  ⟨hi.rp, hi.rn, rfl, hi.ready⟩
+
+/-- the loop of `way()` in closed form: every ref gets `get_node_location(ref)`, whatever it carried;
+    `error` is set iff one of those locations is not `ok` -/
+theorem NLFW.wayLoop_eq (ok : V → Bool) (s : NLFW Ip In) : ∀ (refs : List (NRef V)) (error : Bool),
+    s.wayLoop ok refs error =
+      (refs.map (fun r => (r.1, s.getNodeLocation r.1)),
+       error || refs.any (fun r => !ok (s.getNodeLocation r.1))) := by
+  intro refs
+  induction refs with
+  | nil => intro error; simp [NLFW.wayLoop]
+  | cons r t ih =>
+    intro error
+    obtain ⟨ref, carried⟩ := r
+    simp only [NLFW.wayLoop, ih, List.map_cons, List.any_cons]
+    cases ok (s.getNodeLocation ref) <;> cases error <;> simp
+
+/-- the ids of the node refs of a way -/
+def refIds (refs : List (NRef V)) : List Int := refs.map (·.1)
+
+/-- The property's clause for one way with the ref ids `ids`, after the nodes `ns`: every ref carries
+    the location of the node with that id (`e` = undefined if there is none); `not_found` iff some
+    ref ends without an `ok` location and errors are not ignored.  Nothing else enters. -/
+def specWay (ok : V → Bool) (e : V) (ign : Bool) (ns : List (Int × V)) (ids : List Int) :
+    List (NRef V) × Bool :=
+  let out := ids.map (fun r => (r, specLoc e ns r))
+  (out, !ign && out.any (fun r => !ok r.2))
+
+theorem refIds_specWay (ok : V → Bool) (e : V) (ign : Bool) (ns : List (Int × V)) (ids : List Int) :
+    refIds (specWay ok e ign ns ids).1 = ids := by
+  simp [refIds, specWay, Function.comp_def]
+
+theorem NInv.way {Lp : Laws Ip e} {Ln : Laws In e} {ign : Bool} {s : NLFW Ip In} {ns : List (Int × V)}
+    (hi : NInv Lp Ln ign s ns) (hok : NodesOk e ns) (ok : V → Bool) (refs : List (NRef V)) :
+    NInv Lp Ln ign (s.way ok refs).1 ns ∧ (s.way ok refs).2 = specWay ok e ign ns (refIds refs) := by
+  obtain ⟨hp, hms⟩ := hi.prepare hok
+  refine ⟨hp, ?_⟩
+  simp only [NLFW.way, NLFW.wayLoop_eq, specWay, refIds, Bool.false_or, List.map_map, List.any_map]
+  have hl : ∀ r : Int, s.prepare.getNodeLocation r = specLoc e ns r := fun r => hp.lookup hms hok r
+  simp only [Function.comp_def, hl, hp.ign_eq]
+
+/-- a permutation of the nodes (distinct ids) is the same map -/
+theorem specSigned_perm {ns ns' : List (Int × V)} (hok : NodesOk e ns) (hp : ns.Perm ns') (r : Int) :
+    specSigned ns r = specSigned ns' r := by
+  have hok' : NodesOk e ns' :=
+    ⟨(hp.map _).nodup_iff.1 hok.1, fun p h => hok.2.1 p (hp.mem_iff.2 h), fun p h => hok.2.2 p (hp.mem_iff.2 h)⟩
+  rw [← specOf_parts ns r, ← specOf_parts ns' r]
+  by_cases hr : r ≥ 0
+  · simp only [hr, if_true]
+    exact specOf_perm (distinct_posPart hok) ((hp.filter _).map _) _
+  · simp only [hr, if_false]
+    exact specOf_perm (distinct_negPart hok) ((hp.filter _).map _) _
+
+theorem specWay_perm {ns ns' : List (Int × V)} (hok : NodesOk e ns) (hp : ns.Perm ns') (ok : V → Bool)
+    (ign : Bool) (ids : List Int) : specWay ok e ign ns ids = specWay ok e ign ns' ids := by
+  have : ∀ r, specLoc e ns r = specLoc e ns' r := fun r => by
+    unfold specLoc; rw [specSigned_perm hok hp r]
+  simp only [specWay, this]
+
+/-- `specSigned` is "the node with that id": `some v` iff the node `(r, v)` arrived, `none` iff no node
+    with id `r` arrived -/
+theorem specSigned_iff_mem {ns : List (Int × V)} (hnd : (ns.map (·.1)).Nodup) (r : Int) (v : V) :
+    specSigned ns r = some v ↔ (r, v) ∈ ns := by
+  induction ns with
+  | nil => simp [specSigned]
+  | cons a t ih =>
+    obtain ⟨k, w⟩ := a
+    simp only [List.map_cons, List.nodup_cons, List.mem_map, not_exists, not_and] at hnd
+    simp only [specSigned, List.mem_cons, Prod.mk.injEq]
+    by_cases h : k = r
+    · subst h
+      simp only [if_true, Option.some.injEq, true_and]
+      constructor
+      · intro h; exact Or.inl h.symm
+      · rintro (h | h)
+        · exact h.symm
+        · exact absurd rfl (hnd.1 (k, v) h)
+    · simp only [h, if_false, ih hnd.2]
+      constructor
+      · intro hm; exact Or.inr hm
+      · rintro (⟨h1, _⟩ | hm)
+        · exact absurd h1.symm h
+        · exact hm
+
+theorem specSigned_eq_none_iff {ns : List (Int × V)} (r : Int) :
+    specSigned ns r = none ↔ r ∉ ns.map (·.1) := by
+  induction ns with
+  | nil => simp [specSigned]
+  | cons a t ih =>
+    obtain ⟨k, w⟩ := a
+    simp only [specSigned, List.map_cons, List.mem_cons, not_or]
+    by_cases h : k = r
+    · simp [h]
+    · simp only [h, if_false, ih]
+      constructor
+      · intro hm; exact ⟨fun h' => h h'.symm, hm⟩
+      · intro hm; exact hm.2
+
 def nodesOf : List (Ev V) → List (Int × V)
   | [] => []
   | .node id loc :: rest => (id, loc) :: nodesOf rest
-  | .way _ :: rest => nodesOf rest
+  | _ :: rest => nodesOf rest
 
-/-- the specification of a whole stream: every way sees the nodes that arrived before it -/
-def specRun (ok : V → Bool) (e : V) (ign : Bool) : List (Int × V) → List (Ev V) → List (List V × Bool)
-  | _, [] => []
-  | ns, .node id loc :: rest => specRun ok e ign ((id, loc) :: ns) rest
-  | ns, .way refs :: rest =>
-    let locs := refs.map (specLoc e ns)
-    (locs, !ign && locs.any (fun l => !ok l)) :: specRun ok e ign ns rest
+/-- Domain of a stream: within one handler life (up to the next `fresh`) the node ids are distinct,
+    the node locations are not the undefined location and |id| ≤ 2^64-1; no `clear()` (which makes the
+    handler unusable).  `ns` = the nodes of the current handler life so far, newest first. -/
+def EvsOk (e : V) : List (Int × V) → List (Ev V) → Prop
+  | ns, [] => NodesOk e ns
+  | ns, .node id loc :: rest => EvsOk e ((id, loc) :: ns) rest
+  | ns, .way _ :: rest => EvsOk e ns rest
+  | ns, .again _ :: rest => EvsOk e ns rest
+  | ns, .ignoreErrors :: rest => EvsOk e ns rest
+  | _, .clear :: _ => False
+  | ns, .fresh :: rest => NodesOk e ns ∧ EvsOk e [] rest
 
-theorem NInv.run {Lp : Laws Ip e} {Ln : Laws In e} {ign : Bool} (ok : V → Bool) :
-    ∀ (evs : List (Ev V)) (s : NLFW Ip In) (ns : List (Int × V)), NInv Lp Ln ign s ns →
-      NodesOk e ((nodesOf evs).reverse ++ ns) →
-      (NLFW.run ok s evs).2 = specRun ok e ign ns evs := by
+theorem EvsOk.nodesOk : ∀ {evs : List (Ev V)} {ns : List (Int × V)}, EvsOk e ns evs → NodesOk e ns := by
   intro evs
   induction evs with
-  | nil => intro s ns _ _; simp [NLFW.run, specRun]
+  | nil => intro ns h; exact h
   | cons ev rest ih =>
-    intro s ns hi hok
+    intro ns h
+    cases ev with
+    | node id loc => exact NodesOk.suffix (l1 := [(id, loc)]) (ih (ns := (id, loc) :: ns) h)
+    | way refs => exact ih (ns := ns) h
+    | again k => exact ih (ns := ns) h
+    | ignoreErrors => exact ih (ns := ns) h
+    | clear => exact absurd h (by simp [EvsOk])
+    | fresh => exact h.1
+
+/-- The specification of a whole stream.  State: the `ignore_errors` setting, the nodes of the
+    current handler life (newest first), and of every way object created so far ONLY ITS REF IDS —
+    the locations a way object carries when it is passed to the handler (again) do not enter. -/
+def specRun (ok : V → Bool) (e : V) :
+    Bool → List (Int × V) → List (List Int) → List (Ev V) → List (List (NRef V) × Bool)
+  | _, _, _, [] => []
+  | ign, ns, ws, .node id loc :: rest => specRun ok e ign ((id, loc) :: ns) ws rest
+  | ign, ns, ws, .way refs :: rest =>
+    specWay ok e ign ns (refIds refs) :: specRun ok e ign ns (ws ++ [refIds refs]) rest
+  | ign, ns, ws, .again k :: rest => specWay ok e ign ns (ws.getD k []) :: specRun ok e ign ns ws rest
+  | _, ns, ws, .ignoreErrors :: rest => specRun ok e true ns ws rest
+  | ign, ns, ws, .clear :: rest => specRun ok e ign ns ws rest
+  | ign, _, ws, .fresh :: rest => specRun ok e ign [] ws rest
+
+theorem map_setNth_same {α β : Type} (f : α → β) (d : α) : ∀ (ws : List α) (k : Nat) (x : α),
+    f x = f (ws.getD k d) → (setNth ws k x).map f = ws.map f := by
+  intro ws
+  induction ws with
+  | nil => intro k x _; simp [setNth]
+  | cons a t ih =>
+    intro k x h
+    cases k with
+    | zero => simp only [setNth, List.map_cons]; rw [h]; simp
+    | succ k =>
+      simp only [setNth, List.map_cons]
+      rw [ih k x (by simpa using h)]
+
+theorem getD_map_refIds (ws : List (List (NRef V))) (k : Nat) :
+    (ws.map refIds).getD k [] = refIds (ws.getD k []) := by
+  simp only [List.getD_eq_getElem?_getD, List.getElem?_map]
+  cases ws[k]? <;> simp [refIds]
+
+theorem NInv.run {Lp : Laws Ip e} {Ln : Laws In e} (ok : V → Bool) (ign0 : Bool) :
+    ∀ (evs : List (Ev V)) (c : RunSt Ip In) (ign : Bool) (ns : List (Int × V)), NInv Lp Ln ign c.h ns →
+      EvsOk e ns evs →
+      (NLFW.run ok (NLFW.init Ip In ign0) c evs).2 = specRun ok e ign ns (c.ways.map refIds) evs := by
+  intro evs
+  induction evs with
+  | nil => intro c ign ns _ _; simp [NLFW.run, specRun]
+  | cons ev rest ih =>
+    intro c ign ns hi hok
     cases ev with
     | node id loc =>
-      have e1 : (nodesOf (Ev.node id loc :: rest)).reverse ++ ns = (nodesOf rest).reverse ++ ((id, loc) :: ns) := by
-        simp [nodesOf]
-      rw [e1] at hok
       simp only [NLFW.run, specRun]
-      exact ih _ _ (hi.node id loc hok.suffix) hok
+      exact ih _ _ _ (hi.node id loc (EvsOk.nodesOk (ns := (id, loc) :: ns) hok)) hok
     | way refs =>
-      have hok' : NodesOk e ((nodesOf rest).reverse ++ ns) := by simpa [nodesOf] using hok
-      have hns := hok'.suffix
-      obtain ⟨hp, hms⟩ := hi.prepare hns
-      simp only [NLFW.run, specRun, NLFW.way]
-      have hl : refs.map s.prepare.getNodeLocation = refs.map (specLoc e ns) :=
-        List.map_congr_left (fun r _ => hp.lookup hms hns r)
-      rw [hl, hp.ign_eq, ih _ _ hp hok']
+      have hok' : EvsOk e ns rest := hok
+      obtain ⟨hp, hw⟩ := hi.way hok'.nodesOk ok refs
+      simp only [NLFW.run, specRun]
+      rw [hw, ih _ ign ns hp hok']
+      simp only [List.map_append, List.map_cons, List.map_nil, refIds_specWay]
+    | again k =>
+      have hok' : EvsOk e ns rest := hok
+      obtain ⟨hp, hw⟩ := hi.way hok'.nodesOk ok (c.ways.getD k [])
+      simp only [NLFW.run, specRun]
+      rw [hw, ih _ ign ns hp hok']
+      simp only [getD_map_refIds]
+      rw [map_setNth_same refIds [] c.ways k _ (by rw [refIds_specWay])]
+    | ignoreErrors =>
+      have hok' : EvsOk e ns rest := hok
+      simp only [NLFW.run, specRun]
+      exact ih _ _ _ hi.setIgnoreErrors hok'
+    | clear => exact absurd hok (by simp [EvsOk])
+    | fresh =>
+      have hok' : EvsOk e [] rest := hok.2
+      simp only [NLFW.run, specRun]
+      have hf : NInv Lp Ln ign ({ NLFW.init Ip In ign0 with ignoreErrors := c.h.ignoreErrors }) [] := by
+        have := NInv.init Lp Ln ign
+        rw [← hi.ign_eq] at this ⊢
+        exact this
+      exact ih _ _ _ hf hok'
 
 end nlfw
 
